@@ -393,7 +393,8 @@ def main():
     ck.trusted = DEFAULT_TRUSTED + ["modelled not verified: std::sort / heap algorithms of libstdc++ ('some arrangement sorted by the key'; theorem C13_hv2d_correct_any_tie_order quantifies over all of them)",
                                     "modelled not verified: std::map of the DC sort's sweeps is an association list with unique keys (iteration order is not observable: a maximum is computed); std::nth_element / std::max_element in median() are 'the element of rank n/2' / 'the maximum of the lower half' of the sorted values",
                                     "modelled not verified: std::sort in createFront of the 2-D subset selection is libstdc++'s insertion sort (n <= 16; the selection vector is compared for n <= 16 only; the theorem covers every arrangement sorted by the first objective); double comparisons of intersection abscissae with the 1e-10 tolerance are exact rational comparisons on small integer coordinates",
-                                    "not proved, differential test only: contribution front end, HOY (the hypervolume front end is proved for every dimension except 4), 3-D/MD contributions, overloads without reference point"]
+                                    "modelled not verified: exp(sum(log(ref - p))) in HypervolumeContributionMD is the exact product of the edge lengths (compared at 1e-9); -inf (= -DBL_MAX) of the sentinels in HypervolumeContribution3D is any value below all coordinates; Box::upper.f3 there is dead data",
+                                    "not proved, differential test only: contribution front end, HOY (the hypervolume front end and MD contributions are proved for every dimension except 4), overloads without reference point"]
     ck.assumptions = ["integer objective values (products of at most 5 integers <= 13 are exact in double, comparison is equality; MD contributions use exp(sum(log)) and are compared at 1e-9 relative to the total hypervolume)",
                       "reference point weakly dominated by every point (ref_i >= max coordinate, mostly strictly)",
                       "contribution queries: mutually non-dominated sets with duplicates, 1 <= k <= n, overloads WITH reference point in the main stream; overloads without reference point in a separate stream",
